@@ -1066,6 +1066,14 @@ fn feature_table(recvs: &[Recv]) -> Value {
         }
         let fields: Vec<&Field> = match &r.shape {
             Shape::Struct(fs) => fs.iter().collect(),
+            Shape::Unit => {
+                bump("unit_struct");
+                vec![]
+            }
+            Shape::Newtype(_) => {
+                bump("newtype_struct");
+                vec![]
+            }
             Shape::Enum(vs) => {
                 bump("enum");
                 vs.iter()
